@@ -41,6 +41,7 @@ RULE = ('case = one decode (trajectory) or one lattice (geometry: all its '
         'the decode performed at least one sweep step that flipped an edge')
 ASSUMPTIONS = ['supported size family = pv/families.py']
 REQUIRED_COUNTERS = ['retained_corrections_rechecked',
+                     'syndrome_arrays_decoded_twice',
                      'edges_geometry_checked', 'sweep_steps_observed',
                      'edge_flips_observed', 'decodes_observed',
                      'clean_stops_checked', 'tie_breaks_observed',
@@ -271,12 +272,15 @@ def install(dname):
     cls._pv_wrapped = True
 
 
-def observe_decode(out, dname, code, dec, error_int, desc, mech, bad_edges):
+def observe_decode(out, dname, code, dec, error_int, desc, mech, bad_edges,
+                   syndrome=None):
     global MON
     n = code.n
     H = gf2.pack_rows(code.stabilizer_matrix)
     m = len(H)
-    s = gf2.unpack(gf2.syndrome_int(H, error_int, n), m).astype('uint8')
+    s = gf2.unpack(gf2.syndrome_int(H, error_int, n), m).astype('uint8') \
+        if syndrome is None else syndrome
+    s_before = s.tobytes()
     MON.begin(code, error_int, desc, mech, bad_edges)
     try:
         c_obj = dec.decode(s)
@@ -291,6 +295,11 @@ def observe_decode(out, dname, code, dec, error_int, desc, mech, bad_edges):
         return
     MON.active = False
     out.count('decodes_observed')
+    if s.tobytes() != s_before:
+        out.violation(f'{mech}/decode-modifies-the-callers-syndrome',
+                      'the syndrome array handed to decode() reads '
+                      'differently after the call', desc)
+        s[:] = np.frombuffer(s_before, dtype=s.dtype)
     if len(RETAINED) < 400:
         # callers collect corrections over a batch: what was returned must
         # still be what it was when later decodes have run (checked at the
@@ -395,15 +404,30 @@ def run_traj(task, out):
             e |= gf2.pack((rng.random(n) < 0.1).astype('uint8'))
             errs.append(e)
         seeds = list(range(task.get('nseeds', 2)))
+    # one measured syndrome array per error, handed to every decoder (and
+    # for every third error twice to the same one)
+    Hs = gf2.pack_rows(code.stabilizer_matrix)
+    measured = {e: gf2.unpack(gf2.syndrome_int(Hs, e, n), len(Hs))
+                .astype('uint8') for e in errs}
     for sd in seeds:
         dec = decoder_class(dname)(code, em, 0.1, seed=sd, **kw)
-        for e in errs:
+        for ei, e in enumerate(errs):
+            if ei % 3 == 0:
+                d0 = {'decoder': dname, 'cls': cls, 'size': list(size),
+                      'seed': sd, 'mode': task['mode'], 'first_of_two': True,
+                      'error_z_qubits': [i for i in range(n)
+                                         if (e >> (n + i)) & 1][:40],
+                      'error_x_weight': gf2.popcount(e & ((1 << n) - 1))}
+                observe_decode(out, dname, code, dec, e, d0, mech, bad_edges,
+                               syndrome=measured[e])
+                out.count('syndrome_arrays_decoded_twice')
             desc = {'decoder': dname, 'cls': cls, 'size': list(size),
                     'seed': sd, 'mode': task['mode'],
                     'error_z_qubits': [i for i in range(n)
                                        if (e >> (n + i)) & 1][:40],
                     'error_x_weight': gf2.popcount(e & ((1 << n) - 1))}
-            observe_decode(out, dname, code, dec, e, desc, mech, bad_edges)
+            observe_decode(out, dname, code, dec, e, desc, mech, bad_edges,
+                           syndrome=measured[e])
         check_retained(out)
     MON = None
 
